@@ -48,7 +48,7 @@ manifest = {
   "engines": [
     {"name": "walksim", "path": "/verif/sim/walksim", "serves_properties": ["C06", "C07"], "kind_free_text": "E2: in-process deterministic schedule simulator (baton scheduler vsched over real threads at hooked yield points) for the parallel directory walker, with seeded readdir order/faults, stat faults through the preloaded syscall shim, and a scripted visitor"},
     {"name": "iosim", "path": "/verif/sim/iosim", "serves_properties": ["C02", "C03", "C14", "C16", "C17"], "kind_free_text": "E1: library-level I/O simulator: SimReader (seeded read histories, EINTR, errors), SimSink (stop/error at event k), SimWriter (error after k bytes), randomised buffer capacity / heap limit"},
-    {"name": "procsim", "path": "/verif/sim/procsim", "serves_properties": ["C02", "C03", "C08", "C14", "C15", "C16", "C17", "C18"], "kind_free_text": "E3: process-level simulator around the real rg binary: LD_PRELOAD syscall fault shim (faultshim.so: stdout byte budget/EPIPE, open/opendir/read/stat/fstat errors, EINTR, early EOF, read fragmentation on files and pipes), preloaded scheduler plugin (libvsched.so) serialising rg's worker threads at walker, search, print and shared-flag operations, scripted child process stub"},
+    {"name": "procsim", "path": "/verif/sim/procsim", "serves_properties": ["C02", "C03", "C08", "C14", "C15", "C16", "C17", "C18"], "kind_free_text": "E3: process-level simulator around the real rg binary: LD_PRELOAD syscall fault shim (faultshim.so: stdout byte budget/EPIPE, open/opendir/readdir/read/stat/fstat/mmap errors, EINTR on reads and on stdout writes, early EOF, read fragmentation on files and pipes, short writes to stdout), preloaded scheduler plugin (libvsched.so) serialising rg's worker threads at walker, search, print and shared-flag operations, scripted child process stub"},
   ],
   "checks": [CHECKS[k] for k in sorted(CHECKS)],
   "not_applicable": [{"property_id": k, "reason": v} for k, v in sorted({**NA, **{k: v for k, v in PENDING.items() if k not in CHECKS}}.items())],
